@@ -1,14 +1,16 @@
 #!/usr/bin/env python3
 """Run every seeded change against every check (in scratch copies, 16 in parallel) and print the detection matrix.
-usage: seed_matrix.py [--own] [--record]    --own: only the check of the seed's own property; --record: store into meta.json"""
+usage: seed_matrix.py [--own] [--record] [--only=substr,substr]    --own: only the check of the seed's own property; --record: store into meta.json"""
 import json, os, sys
 from concurrent.futures import ThreadPoolExecutor
-sys.path.insert(0, '/verif')
+import os; sys.path.insert(0, os.path.dirname(os.path.dirname(os.path.abspath(__file__))))
 from cqverif import scratch
 ALL = ["C01","C02","C03","C04","C05","C06","C07","C08","C09","C10","C12","C14","C15","C16","C17","C18","C19","C20"]
 own = '--own' in sys.argv
 record = '--record' in sys.argv
-seeds = sorted(d for d in os.listdir('/verif/seeded') if os.path.exists('/verif/seeded/%s/patch.diff' % d))
+only = [a.split('=', 1)[1] for a in sys.argv if a.startswith('--only=')]
+seeds = sorted(d for d in os.listdir('/verif/seeded') if os.path.exists('/verif/seeded/%s/patch.diff' % d)
+               and (not only or any(o in d for o in only[0].split(','))))
 def job(label):
     meta = json.load(open('/verif/seeded/%s/meta.json' % label))
     pids = [meta['property']] if own else ALL
@@ -25,5 +27,10 @@ for label, meta, r in res:
             cells.append('%s:%d%s' % (pid, v['exit'], v['rules']))
     print('%-18s own(%s)=%s  others: %s' % (label, prop, r.get(prop, {}).get('exit'), ' '.join(c for c in cells if not c.startswith(prop + ':')) or '-'))
     if record:
-        meta['detection'] = {pid: {'exit': v['exit'], 'rules': v['rules']} for pid, v in r.items() if v['exit'] != 0 or pid == prop}
+        det = {pid: {'exit': v['exit'], 'rules': v['rules']} for pid, v in r.items() if v['exit'] != 0 or pid == prop}
+        if own:
+            old_det = {k: v for k, v in (meta.get('detection') or {}).items() if k != prop}     # keep the cross results of the last full run
+            old_det.update(det)
+            det = old_det
+        meta['detection'] = det
         json.dump(meta, open('/verif/seeded/%s/meta.json' % label, 'w'), indent=1)
